@@ -128,7 +128,7 @@ def replay(chk, e, dtype, rng):
                     ok = k in dsets and f[k][...].tobytes() == np.ascontiguousarray(np.moveaxis(a, 0, -1)).tobytes()
                 if not ok:
                     errs.append(f"bytes of {name} on disk are not the (marker-major / per-component) image of the source")
-            if f.attrs["time"] != t:
+            if float(np.float64(f.attrs["time"])) != t:      # (NumPy 2 compares a float32 with a Python float in float32)
                 errs.append("time stamp not stored exactly")
     # ---- the file the loader sees -------------------------------------------------------------------
     if skip:
@@ -158,7 +158,7 @@ def replay(chk, e, dtype, rng):
         if raised is not None:
             errs.append(f"load raised {type(raised).__name__}: {raised} on a matching file")
         else:
-            if t2 != t:
+            if float(np.float64(t2)) != t:
                 errs.append(f"time stamp {t2!r} != {t!r}")
             for name, a in src.items():
                 if dst[name].tobytes() != a.tobytes():
@@ -184,12 +184,16 @@ def convenience_classes(chk, rng):
             for v in fields.values():
                 v[...] = weird(v.shape, dtype, rng)
             io.save("conv.h5", time=1.5)
+            tt = 0.1 + float(rng.random())             # a time that single precision cannot represent
+            io.save("conv_t.h5", time=tt)
+            if float(np.float64(spu.EulerianFieldIO(position_field=sim.position_field, eulerian_fields_dict={k: np.zeros_like(v) for k, v in fields.items()}).load("conv_t.h5"))) != tt:
+                chk.violation({"kind": "io_convenience", "cls": "EulerianFieldIO"}, f"EulerianFieldIO ({dtype.__name__}) does not restore the time stamp {tt!r} exactly")
             fresh = {k: np.zeros_like(v) for k, v in fields.items()}
             io2 = spu.EulerianFieldIO(position_field=sim.position_field, eulerian_fields_dict=fresh)
             t = io2.load("conv.h5")
             chk.traces += 1
             chk.count(("EulerianFieldIO", dim, dtype.__name__))
-            if t != 1.5 or any(fresh[k].tobytes() != fields[k].tobytes() for k in fields):
+            if float(np.float64(t)) != 1.5 or any(fresh[k].tobytes() != fields[k].tobytes() for k in fields):
                 chk.violation({"kind": "io_convenience", "cls": "EulerianFieldIO"}, f"EulerianFieldIO {dim}-D {dtype.__name__} round trip not bit exact")
             # a registry of another grid must be rejected
             sim2 = sps.PassiveTransportFlowSimulator(kinematic_viscosity=0.1, grid_dim=dim, grid_size=shape, x_range=5.0, real_t=dtype)
@@ -222,7 +226,7 @@ def convenience_classes(chk, rng):
                 gshape = f["Lagrangian/rod/Grid"].shape
             chk.traces += 1
             chk.count(("CosseratRodIO", dim, n))
-            ok = t == 2.25 and rio.rod_element_position.tobytes() == saved_pos.tobytes() and rod.radius.tobytes() == saved_rad.tobytes() and gshape == (n, dim)
+            ok = float(np.float64(t)) == 2.25 and rio.rod_element_position.tobytes() == saved_pos.tobytes() and rod.radius.tobytes() == saved_rad.tobytes() and gshape == (n, dim)
             if not ok:
                 chk.violation({"kind": "io_convenience", "cls": "CosseratRodIO"}, f"CosseratRodIO dim={dim} n_elems={n}: round trip / layout wrong (grid dataset {gshape})")
 
@@ -241,12 +245,14 @@ def run(chk: core.Check):
     chk.add_tlc("control load guarded by fields (round trip)", r4, expect_violation="RoundTrip")
     cases = tlc.dedupe(res.emits)
     stride = 5 if quick else 1
+    replayed_kinds = set()
     for i, e in enumerate(cases):
         if e["cs"]["mis"] == "nothing_registered_l":
             continue
         interesting = any(g["n"] == e["cs"]["dim"] for g in e["cs"]["grids"]) or any(not g["fs"] for g in e["cs"]["grids"])
         if i % stride != chk.seed % stride and not (interesting and i % 2 == 0):
             continue
+        replayed_kinds.add((e["cs"]["mis"] if e["effective"] else "none", bool(e["load_error"])))
         for dtype in (np.float64, np.float32):
             try:
                 errs = replay(chk, e, dtype, rng)
@@ -263,6 +269,9 @@ def run(chk: core.Check):
                               f"IO scenario {e['cs']} ({dtype.__name__}): {er}", {"case": e, "error": er})
         if len(chk.samples) < 3 and interesting:
             chk.sample(e)
+    need = {(m, True) for m in ("missing_efield", "missing_grid", "missing_lfield", "origin", "dx", "grid_size")} | {("none", False)}
+    if not need <= replayed_kinds:
+        raise core.MachineryError(f"scenario kinds {sorted(need - replayed_kinds)} were not replayed (sub-sampling too coarse)")
     convenience_classes(chk, rng)
     chk.assumptions += [
         "array contents are arbitrary bit patterns (NaN payloads, infinities, denormals, signed zeros) compared by raw bytes",
